@@ -25,20 +25,20 @@ func envInt(name string, def int) int {
 }
 
 type Config struct {
-	Mode     string  `json:"mode"`
-	Out      string  `json:"out"`
-	Data     string  `json:"data"`
-	Seed     int64   `json:"seed"`
-	Programs int     `json:"programs"`
-	Gen      GenCfg  `json:"gen"`
-	Faults   bool    `json:"faults"`
-	MaxFault int     `json:"max_fault"` // max fault positions per shape (0 = all)
-	Child    int     `json:"child"`     // sweep: every n-th position also probes from a child process (0 = never)
-	Probe    *ProbeCfg `json:"probe,omitempty"`
-	Program  *Program  `json:"program,omitempty"` // replay: the program to run sequentially
-	Conc     *ConcCfg  `json:"conc,omitempty"`
-	Crash    *CrashCfg `json:"crash,omitempty"`
-	BackendOut string  `json:"backend_out,omitempty"` // also record the backend-call trace (SopCommitTrace)
+	Mode       string    `json:"mode"`
+	Out        string    `json:"out"`
+	Data       string    `json:"data"`
+	Seed       int64     `json:"seed"`
+	Programs   int       `json:"programs"`
+	Gen        GenCfg    `json:"gen"`
+	Faults     bool      `json:"faults"`
+	MaxFault   int       `json:"max_fault"` // max fault positions per shape (0 = all)
+	Child      int       `json:"child"`     // sweep: every n-th position also probes from a child process (0 = never)
+	Probe      *ProbeCfg `json:"probe,omitempty"`
+	Program    *Program  `json:"program,omitempty"` // replay: the program to run sequentially
+	Conc       *ConcCfg  `json:"conc,omitempty"`
+	Crash      *CrashCfg `json:"crash,omitempty"`
+	BackendOut string    `json:"backend_out,omitempty"` // also record the backend-call trace (SopCommitTrace)
 }
 
 func main() {
@@ -115,7 +115,6 @@ func runSeq(cfg Config) {
 		}
 	}
 }
-
 
 // runReplay runs one given program sequentially (used to reproduce a rejected trace).
 func runReplay(cfg Config) {
